@@ -165,6 +165,48 @@ with inner_args (d : desig) : list chain :=
 
 Definition is_none {A} (o : option A) : bool := match o with None => true | Some _ => false end.
 
+(* ------------------------------------------------------------------ ASSOCIATE constructs *)
+Fixpoint arrow_free (x : str) : bool :=
+  match x with
+  | a :: x' => match x' with
+               | b :: _ => negb (Ascii.eqb a "="%char && Ascii.eqb b ">"%char) && arrow_free x'
+               | [] => true
+               end
+  | [] => true
+  end.
+Definition nosep (x : str) : bool :=
+  forallb (fun c => negb (Ascii.eqb c comma || Ascii.eqb c lbrk || Ascii.eqb c rbrk)) x.
+
+(* the selector of an ASSOCIATE: a designator, or an expression whose level-0 text holds no ",", "[",
+   "]" or "=>" and is not of the form FORD takes for a designator (words joined by "%" once "()" and
+   blanks are removed) *)
+Definition sel_ok (e : expr) : bool :=
+  match e with
+  | EDes _ => true
+  | _ => nosep (sh_e e) && arrow_free (sh_e e) && is_none (assoc_target (space :: sh_e e))
+  end.
+
+(* the batch an ASSOCIATE statement adds, given the associations in force *)
+Definition new_batch (env : aenv) (pairs : list (str * expr)) : list (str * option chain) :=
+  map (fun p => (lower (fst p), selector_chain env (snd p))) pairs.
+
+(* the associations in force behind each statement of a unit *)
+Definition env_after (env : aenv) (st : stmt) : aenv :=
+  match st with
+  | SAssoc _ pairs => env ++ [new_batch env pairs]
+  | SEndAssoc => removelast env
+  | _ => env
+  end.
+
+(* END ASSOCIATE only where a construct is open *)
+Fixpoint nest_ok (depth : nat) (ss : list stmt) : bool :=
+  match ss with
+  | [] => true
+  | SAssoc _ _ :: r => nest_ok (S depth) r
+  | SEndAssoc :: r => match depth with S d => nest_ok d r | 0 => false end
+  | _ :: r => nest_ok depth r
+  end.
+
 (* the statement falls through the earlier branches of the cascade *)
 Definition cascade_ok (line : str) : bool :=
   negb (format_re line) && negb (end_associate_re line) && is_none (associate_re line)
@@ -173,22 +215,23 @@ Definition cascade_ok (line : str) : bool :=
 Definition unit_chains (st : stmt) : list chain :=
   match st with SGoto _ _ => stmt_chains st | _ => if seg_stmt st then stmt_chains st else [] end.
 
-(* the statement reaches _add_procedure_calls when it holds a reference (decided by evaluating the
-   recognisers on the rendered text); a FORMAT is skipped; a computed GO TO is scanned without its
-   label list *)
+(* the statement falls through the branches of the cascade in front of the CALL_RE/SUBCALL_RE gate
+   (decided by evaluating the recognisers of those branches on the rendered text; that the gate itself
+   opens whenever there is something to record is proved: C08_gate); a FORMAT is skipped; a computed
+   GO TO is scanned without its label list *)
 Definition step_ok (st : stmt) : bool :=
   match st with
-  | SFormat _ _ _ => format_re (render_stmt st)
+  | SFormat _ _ _ => true                                         (* that FORMAT_RE matches is proved *)
   | SGoto _ e =>
     let line := render_stmt st in
     negb (format_re line) && negb (end_associate_re line) && is_none (associate_re line)
     && match goto_rewrite false [] line with
-       | Some line' => str_eqb line' (render_segs (goto_segs e)) && (call_gate line' || is_nil (stmt_chains st))
+       | Some line' => str_eqb line' (render_segs (goto_segs e))
        | None => false
        end
-  | SAssoc _ _ => false
-  | SEndAssoc => false
-  | _ => cascade_ok (render_stmt st) && (call_gate (render_stmt st) || is_nil (stmt_chains st))
+  | SAssoc _ pairs => forallb (fun p => sel_ok (snd p)) pairs     (* that ASSOCIATE_RE matches is proved *)
+  | SEndAssoc => true
+  | _ => cascade_ok (render_stmt st)
   end.
 
 Definition assoc_free_stmt (st : stmt) : bool := match st with SAssoc _ _ | SEndAssoc => false | _ => true end.
@@ -223,9 +266,29 @@ Definition stmt_inner (st : stmt) : list chain :=
   | _ => flat_map seg_inner (stmt_segs st)
   end.
 
+(* a chain list under the associations in force: leading associate names replaced, chains headed by
+   the name of an expression value dropped *)
+Definition subst_chains (env : aenv) (l : list chain) : list chain :=
+  flat_map (fun ch => match expand env ch with Some c => [c] | None => [] end) l.
+
+(* inner designator parts of the unit, under the associations in force where they stand *)
+Fixpoint env_inner (env : aenv) (ss : list stmt) : list chain :=
+  match ss with
+  | [] => []
+  | st :: r => subst_chains env (stmt_inner st) ++ env_inner (env_after env st) r
+  end.
+
+(* no ASSOCIATE name is spelled like a keyword the grammar writes in front of "(" *)
+Definition assoc_names_ok (ss : list stmt) : bool :=
+  forallb (fun st => match st with
+                     | SAssoc _ pairs => forallb (fun p => negb (str_in (lower (fst p)) grammar_keywords)) pairs
+                     | _ => true
+                     end) ss.
+
 (* the hypotheses of exactness *)
 Definition resolvable (tb : symtab) (ss : list stmt) : bool :=
-  forallb wf_stmt ss && forallb plain_ok ss && forallb step_ok ss     (* well formed; every statement reaches the scan or is a FORMAT *)
+  forallb wf_stmt ss && forallb plain_ok ss && forallb step_ok ss     (* well formed; earlier cascade branches do not apply *)
+  && nest_ok 0 ss && assoc_names_ok ss                                (* ASSOCIATE constructs properly closed *)
   && tb_ok tb                                                         (* correct name tables (C07) *)
   && negb (region_intrinsic_named tb ss)                              (* region 3 *)
-  && forallb (fun ch => is_nil (classify0 tb ch)) (flat_map stmt_inner ss).   (* inner parts of designators are variables *)
+  && forallb (fun ch => is_nil (classify0 tb ch)) (env_inner [] ss).  (* inner parts of designators are variables *)
